@@ -62,7 +62,7 @@ Print Assumptions C07_plain_text_safe.
    clusters) this is the property for Wrap on the text-level function. *)
 Theorem C07_wrap_words : forall (C : Classifier) (K : ClassifierOk) (U : Upper) text w sep ct b,
   collapse_space text sep = Ok ct -> all_safe ct -> ct <> [] -> wrap text w sep = Ok b ->
-  exists pss, b_lines b = map ln pss /\ cov (concat pss) (wds (clusters ct) []).
+  exists pss, b_lines b = map ln pss /\ cov (Z.max w 2) (concat pss) (wds (clusters ct) []).
 Proof. intros C K U. exact wrap_words. Qed.
 Print Assumptions C07_wrap_words.
 
